@@ -207,6 +207,31 @@ func (f *failWriter) Write(p []byte) (int, error) {
 	return room, errInjected
 }
 
+// fullThenFailWriter takes every slice whole; on its k-th call (counted from 0)
+// it reports the writer's error together with the full count - "everything you
+// gave me is written, and the device is gone" - and fails outright afterwards.
+type fullThenFailWriter struct {
+	k, calls int
+	failed   bool
+}
+
+func (f *fullThenFailWriter) Write(p []byte) (int, error) {
+	if f.failed {
+		return 0, errInjected
+	}
+	f.calls++
+	if f.calls-1 == f.k {
+		f.failed = true
+		return len(p), errInjected
+	}
+	return len(p), nil
+}
+
+// countWriter counts Write calls.
+type countWriter struct{ calls int }
+
+func (w *countWriter) Write(p []byte) (int, error) { w.calls++; return len(p), nil }
+
 func firstDiff(a, b []byte) int {
 	n := len(a)
 	if len(b) < n {
@@ -332,7 +357,16 @@ func c03Huge(c *fw.Ctx, idx int) {
 	}
 	var g *model.G
 	how := ""
-	switch r.Intn(5) {
+	switch r.Intn(6) {
+	case 5:
+		// collections nested tens to thousands deep around one point
+		depth := []int{65, 66, 100, 129, 257, 1000, 1025, 2049}[r.Intn(8)]
+		g = &model.G{Kind: model.Point, Layout: layout, C0: mk(1)[0]}
+		for i := 0; i < depth; i++ {
+			g = &model.G{Kind: model.Collection, Members: []*model.G{g}}
+		}
+		how = fmt.Sprintf("Point inside %d nested GeometryCollections", depth)
+		nbig = depth
 	case 0:
 		g, how = &model.G{Kind: model.LineString, Layout: layout, C1: mk(nbig)}, "LineString"
 	case 1:
@@ -350,6 +384,24 @@ func c03Huge(c *fw.Ctx, idx int) {
 	c.SetInput(map[string]any{"geometry": how, "layout": layout.String(), "coordinates_of_the_large_part": nbig, "mode": m.name, "ordinate_k_of_coordinate_i": "((7i+3k) mod 100003) + 0.5"})
 	c.Count("huge_" + strings.Fields(how)[0])
 	c03CodecOn(c, g, m)
+	// the database/sql Valuer of the same geometry
+	o := ref.WKBOpts{EWKB: m.o.EWKB}
+	if want, _, werr := ref.WriteWKB(g, o); werr == nil && g.Kind != model.Collection {
+		w := wkbWrapper(g.Kind, g.BuildFlat())
+		if o.EWKB {
+			w = ewkbWrapper(g.Kind, g.BuildFlat())
+		}
+		var v driver.Value
+		var err error
+		if c.Guard("panic", func() { v, err = w.Value() }) {
+			return
+		}
+		c.Eval(1)
+		vb, ok := v.([]byte)
+		if err != nil || !ok || !bytes.Equal(vb, want) {
+			c.Fail("sql-value-differs", "%s wrapper Value() of the large geometry gave err=%v, %T differing from the standard NDR encoding at %d", m.name, err, v, firstDiff(vb, want))
+		}
+	}
 }
 
 func c03CodecOn(c *fw.Ctx, g *model.G, m wkbMode) {
@@ -505,6 +557,36 @@ func c03CodecOn(c *fw.Ctx, g *model.G, m wkbMode) {
 		}
 	}
 	c.CountN("writer_failure_positions", int64(len(limits)))
+	// a writer that reports its error together with a full count, on any of the
+	// Write calls the encoder makes - the last one included
+	{
+		cw := &countWriter{}
+		if c.Guard("panic", func() { err = m.write(cw, t) }) {
+			return
+		}
+		ks := []int{cw.calls - 1, 0, cw.calls / 2}
+		if cw.calls <= 12 {
+			ks = ks[:0]
+			for k := 0; k < cw.calls; k++ {
+				ks = append(ks, k)
+			}
+		}
+		for _, k := range ks {
+			if k < 0 {
+				continue
+			}
+			fw2 := &fullThenFailWriter{k: k}
+			if c.Guard("panic", func() { err = m.write(fw2, t) }) {
+				return
+			}
+			c.Eval(1)
+			c.Count("writer_failures_reported_with_a_full_count")
+			if err == nil || !errors.Is(err, errInjected) {
+				c.Fail("writer-error-lost", "%s: Write returned %v although the writer reported its error (together with a full byte count) on call %d of %d", m.name, err, k+1, cw.calls)
+				return
+			}
+		}
+	}
 	// hex variants
 	var hs string
 	if c.Guard("panic", func() {
@@ -614,6 +696,16 @@ func c03Concat(c *fw.Ctx, idx int) {
 	c.Count("concatenations")
 	c.Distinct(fmt.Sprintf("concat/%s/%d/%d", m.name, n, pat))
 }
+
+// c03Row is a wrapper that is scanned into row after row.
+type c03Row struct {
+	w         sqlWrapper
+	held      geom.T
+	heldModel *model.G
+	bytes     []byte
+}
+
+var c03Rows = map[string]*c03Row{}
 
 type sqlWrapper interface {
 	sql.Scanner
@@ -786,6 +878,51 @@ func c03SQL(c *fw.Ctx, idx int) {
 		}
 		c.Distinct(fmt.Sprintf("sql/%s/%s->%s", m.name, srcKind, dk))
 	}
+	// the rows.Next() pattern: one wrapper per type and format lives as long as the
+	// worker and is scanned into row after row; the geometry the caller took out of
+	// it after the previous row is the caller's and stays what it was
+	{
+		key := m.name + "/" + srcKind.String()
+		row := c03Rows[key]
+		if row == nil {
+			row = &c03Row{w: mk(srcKind, nil)}
+			c03Rows[key] = row
+		}
+		prevHeld, prevModel, prevBytes := row.held, row.heldModel, row.bytes
+		if c.Guard("panic", func() { err = row.w.Scan(append([]byte{}, want...)) }) {
+			return
+		}
+		c.Eval(1)
+		if err != nil {
+			c.Fail("sql-scan-error", "%s %s wrapper used for earlier rows rejected the standard encoding: %v", m.name, srcKind, err)
+			delete(c03Rows, key)
+			return
+		}
+		cur := wrappedGeom(row.w)
+		if !expectGeom(c, fmt.Sprintf("%s %s Scan into a wrapper used for earlier rows", m.name, srcKind), cur, exp, model.Opts{}) {
+			delete(c03Rows, key)
+			return
+		}
+		if prevHeld != nil && !isNilGeom(prevHeld) {
+			c.Count("sql_geometry_kept_from_the_previous_row_rechecked")
+			if !expectGeom(c, fmt.Sprintf("the geometry taken out of the %s %s wrapper after the previous row, now that the next row has been scanned", m.name, srcKind), prevHeld, prevModel, model.Opts{}) {
+				delete(c03Rows, key)
+				return
+			}
+		}
+		row.held, row.heldModel, row.bytes = cur, exp, want
+		// a wrapper built around the caller's geometry, asked for its value, then
+		// scanned into: the caller's geometry is not the wrapper's to overwrite
+		if prevBytes != nil {
+			if c.Guard("panic", func() { err = w.Scan(append([]byte{}, prevBytes...)) }) {
+				return
+			}
+			c.Eval(1)
+			if err == nil && !expectGeom(c, fmt.Sprintf("the caller's geometry after the %s %s wrapper built around it was scanned into", m.name, srcKind), t, g, model.Opts{}) {
+				return
+			}
+		}
+	}
 	// a non-[]byte source
 	dst := mk(srcKind, nil)
 	for _, bad := range []any{"a string", int64(7), 3.5, true} {
@@ -920,7 +1057,7 @@ func init() {
 			{Name: "concatenated", Quick: 16000, Thorough: 300000, Run: c03Concat},
 			{Name: "sql", Quick: 24000, Thorough: 400000, Run: c03SQL},
 			{Name: "unsupported-layout", Quick: 2000, Thorough: 20000, Run: c03Unsupported},
-			{Name: "huge", Quick: 20, Thorough: 400, Chunk: 1, Run: c03Huge},
+			{Name: "huge", Quick: 30, Thorough: 600, Chunk: 1, Run: c03Huge},
 		},
 		Require: []string{"bytes_compared", "mode_wkb-ndr", "mode_wkb-xdr", "mode_wkb-nan-ndr", "mode_ewkb-ndr", "mode_ewkb-xdr", "empty_point_rejected_in_wkb_error_mode", "encoded_with_empty_point",
 			"reader_split_pattern_0", "reader_split_pattern_3", "writer_failure_positions", "hex_roundtrips", "concatenations", "sql_scan_matching", "sql_scan_wrong_type", "sql_non_bytes_rejected", "unsupported_layout_cases", "held_results_rechecked"},
